@@ -149,6 +149,26 @@ func recC02(c *ctx) {
 				bytes.Equal(priv.Public().(ed25519.PublicKey), pub) && priv.Equal(gk) && ed25519.PublicKey(pub).Equal(gp) &&
 				bytes.Equal(priv[:32], seed)
 			c.w.Emit(vt.Ev{"op": "sigcheck", "cfg": c.cfg, "kind": "accept", "res": []bool{okacc}, "seed": vt.B(seed), "what": "GenerateKey/Seed/Public/Equal"})
+			// what the accessors and constructors return is the caller's to modify: scribbling over it must not reach
+			// the private key (which is then used to sign again)
+			if gerr == nil {
+				scribble := func(b []byte) {
+					for j := range b {
+						b[j] ^= 0xa5
+					}
+				}
+				scribble(gp)
+				scribble(gk.Public().(ed25519.PublicKey))
+				scribble(gk.Seed())
+				seed2 := append([]byte(nil), seed...)
+				k2 := ed25519.NewKeyFromSeed(seed2)
+				scribble(seed2)
+				sA, eA := gk.Sign(nil, msg, &ed25519.Options{Context: string(ctxb), Hash: o.Hash})
+				sB, eB := k2.Sign(nil, msg, &ed25519.Options{Context: string(ctxb), Hash: o.Hash})
+				sC, eC := priv.Sign(nil, msg, &ed25519.Options{Context: string(ctxb), Hash: o.Hash})
+				okali := eA == nil && eB == nil && eC == nil && bytes.Equal(gk, priv) && bytes.Equal(k2, priv) && bytes.Equal(sA, sC) && bytes.Equal(sB, sC)
+				c.w.Emit(vt.Ev{"op": "sigcheck", "cfg": c.cfg, "kind": "accept", "res": []bool{okali}, "seed": vt.B(seed), "what": "returned slices do not alias the private key"})
+			}
 		}
 		// every preset, singly and in one mixed batch
 		var res []bool
